@@ -234,7 +234,7 @@ func (p *Program) Struct(short, typeName string) *types.Struct {
 func (p *Program) Field(short, typeName, field string) *types.Var {
 	st := p.Struct(short, typeName)
 	for i := 0; i < st.NumFields(); i++ {
-		if st.Field(i).Name() == field {
+		if fdisp(st.Field(i)) == field {
 			return st.Field(i)
 		}
 	}
@@ -245,7 +245,7 @@ func (p *Program) Field(short, typeName, field string) *types.Var {
 func (p *Program) HasField(short, typeName, field string) bool {
 	st := p.Struct(short, typeName)
 	for i := 0; i < st.NumFields(); i++ {
-		if st.Field(i).Name() == field {
+		if fdisp(st.Field(i)) == field {
 			return true
 		}
 	}
@@ -256,7 +256,7 @@ func (p *Program) HasField(short, typeName, field string) bool {
 func (p *Program) MethodObj(short, typeName, method string) *types.Func {
 	nt := p.Named(short, typeName)
 	for i := 0; i < nt.NumMethods(); i++ {
-		if nt.Method(i).Name() == method {
+		if fndisp(nt.Method(i)) == method {
 			return nt.Method(i)
 		}
 	}
@@ -274,7 +274,7 @@ func (p *Program) MethodObj(short, typeName, method string) *types.Func {
 func (p *Program) HasMethod(short, typeName, method string) bool {
 	nt := p.Named(short, typeName)
 	for i := 0; i < nt.NumMethods(); i++ {
-		if nt.Method(i).Name() == method {
+		if fndisp(nt.Method(i)) == method {
 			return true
 		}
 	}
@@ -296,6 +296,16 @@ func (p *Program) Fn(short, name string) *ssa.Function {
 		anchorFail("package %q not found", short)
 	}
 	f := sp.Func(name)
+	if f == nil {
+		// renamed unexported function: look it up under its reference name
+		for _, m := range sp.Members {
+			if mf, ok := m.(*ssa.Function); ok {
+				if obj, ok := mf.Object().(*types.Func); ok && fndisp(obj) == name {
+					f = mf
+				}
+			}
+		}
+	}
 	if f == nil || f.Blocks == nil {
 		anchorFail("function %s.%s not found", short, name)
 	}
@@ -357,7 +367,31 @@ func FuncName(fn *ssa.Function) string {
 		return "<nil>"
 	}
 	s := fn.String()
+	if len(dispFunc) > 0 {
+		top := fn
+		for top.Parent() != nil {
+			top = top.Parent()
+		}
+		if obj, ok := originOf(top).Object().(*types.Func); ok {
+			if n, ok := dispFunc[obj.Origin()]; ok {
+				// replace the function's own name (last component before any $ / [ suffix of closures and instances)
+				ts := top.String()
+				if i := strings.LastIndex(ts, "."+obj.Name()); i >= 0 {
+					renamed := ts[:i] + "." + n + ts[i+1+len(obj.Name()):]
+					s = renamed + strings.TrimPrefix(s, ts)
+				}
+			}
+		}
+	}
 	return shortenPaths(s)
+}
+
+// fndisp: the display (reference) name of a function or method.
+func fndisp(f *types.Func) string {
+	if n, ok := dispFunc[f.Origin()]; ok {
+		return n
+	}
+	return f.Name()
 }
 
 func shortenPaths(s string) string {
